@@ -1072,3 +1072,96 @@ def oracle_profiler(rng, n, stats, big_every=20):
             if ('will ignore' in com) != (miss > 0):
                 v.append(viol('C17', 'ignored-rows warning wrong (missing %d of %d)' % (miss, nrows), dict(case, attr=a), miss > 0, com))
     return v
+
+
+# ------------------------------------------------------------------ thorough-tier extras
+def oracle_real_processes(rng, n, stats):
+    """C10 with REAL joblib worker processes (loky): n_jobs in {2,3} against n_jobs=1"""
+    v = []
+    S.patch_parallel(False)
+    try:
+        for _ in range(n):
+            which, ts, L, R, lk, rk, la, ra, t, kw = gen_join_case(rng, stats, n_jobs_choices=(1,))
+            case = join_case(which, ts, L, R, lk, rk, la, ra, t, kw)
+            try:
+                ref = rows_multiset(call_join(which, L, R, lk, rk, la, ra, ts, t, kw))
+                for nj in (2, 3):
+                    o = call_join(which, L, R, lk, rk, la, ra, ts, t, dict(kw, n_jobs=nj))
+                    if rows_multiset(o) != ref:
+                        v.append(viol('C10', '%s_join with real worker processes depends on n_jobs=%d' % (which, nj), dict(case, n_jobs=nj), len(ref), len(o)))
+                    if list(o['_id']) != list(range(len(o))):
+                        v.append(viol('C10', '_id is not 0..n-1 (real processes)', dict(case, n_jobs=nj)))
+                stats.hit('oracle.real_processes.joins')
+            except Exception as e:   # noqa: BLE001
+                v.append(viol('C15', 'valid join with worker processes raised %s: %s' % (type(e).__name__, str(e)[:80]), case))
+    finally:
+        S.patch_parallel(True)
+    return v
+
+
+HASHSEED_SCRIPT = r'''
+import sys, random, json, hashlib
+sys.path.insert(0, %r)
+import oracle as O
+from common import Stats
+rng = random.Random(%d)
+st = Stats()
+h = hashlib.sha256()
+for _ in range(%d):
+    which, ts, L, R, lk, rk, la, ra, t, kw = O.gen_join_case(rng, st)
+    try:
+        out = O.call_join(which, L, R, lk, rk, la, ra, ts, t, kw)
+        h.update(json.dumps(O.rows_multiset(out)).encode())
+    except Exception as e:
+        h.update(type(e).__name__.encode())
+print(h.hexdigest())
+'''
+
+
+def oracle_hash_seeds(seed, n, stats):
+    """C10 'repeating the call in another process': the same seeded workload under two PYTHONHASHSEED values"""
+    import subprocess
+    here = os.path.dirname(os.path.abspath(__file__))
+    digests = []
+    for hs in ('1', '2', '12345'):
+        env = dict(os.environ, PYTHONHASHSEED=hs, PYTHONWARNINGS='ignore')
+        p = subprocess.run([sys.executable, '-c', HASHSEED_SCRIPT % (here, seed, n)], stdout=subprocess.PIPE, stderr=subprocess.PIPE, env=env, timeout=1800)
+        if p.returncode != 0:
+            raise RuntimeError('hash-seed subprocess failed: ' + p.stderr.decode()[-300:])
+        digests.append(p.stdout.decode().strip().splitlines()[-1])
+    stats.hit('oracle.hash_seeds.runs', len(digests))
+    if len(set(digests)) != 1:
+        return [viol('C10', 'join results differ between processes with different PYTHONHASHSEED', {'entry': 'hash_seed', 'seed': seed, 'n': n, 'digests': digests})]
+    return []
+
+
+def oracle_datasets(rng, stats):
+    """C13 on the bundled person / books data (oracle-free laws)"""
+    v = []
+    A, B = ssj.load_person_dataset()
+    A = A.astype({c: object for c in A.columns if A[c].dtype != 'int64' and A[c].dtype != 'float64'})
+    B = B.astype({c: object for c in B.columns if B[c].dtype != 'int64' and B[c].dtype != 'float64'})
+    ws = TokSpec('ws', return_set=True)
+    qg = TokSpec('qgram', qval=3, return_set=True)
+    runs = [('jaccard', ws, 'A.name', 'B.name', 0.3, 0.5), ('cosine', qg, 'A.name', 'B.name', 0.4, 0.6), ('dice', ws, 'A.address', 'B.address', 0.3, 0.6),
+            ('overlap_coefficient', ws, 'A.address', 'B.address', 0.5, 0.9), ('overlap', ws, 'A.address', 'B.address', 1, 2)]
+    lk, rk = 'A.id', 'B.id'
+    for which, ts, la, ra, t1, t2 in runs:
+        kw = {'comp_op': '>=', 'out_sim_score': True, 'n_jobs': 1}
+        try:
+            X = call_join(which, A, B, lk, rk, la, ra, ts, t1, kw)
+            Y = call_join(which, B, A, rk, lk, ra, la, ts, t1, kw)
+            a = sorted((str(p[0]), str(p[1]), float(s)) for p, s in zip(out_pairs(X, 'l_' + lk, 'r_' + rk), X['_sim_score']))
+            b = sorted((str(p[1]), str(p[0]), float(s)) for p, s in zip(out_pairs(Y, 'l_' + rk, 'r_' + lk), Y['_sim_score']))
+            if a != b:
+                v.append(viol('C13', '%s_join on the person data: swapping the tables changes the result' % which, {'entry': 'dataset', 'which': which}, len(a), len(b)))
+            Z = call_join(which, A, B, lk, rk, la, ra, ts, t2, kw)
+            z = sorted((str(p[0]), str(p[1]), float(s)) for p, s in zip(out_pairs(Z, 'l_' + lk, 'r_' + rk), Z['_sim_score']))
+            restr = sorted(x for x in a if x[2] >= t2)
+            # straddling pairs (raw score just below t2 but rounding up to it) are excluded: compare only scores not within 1e-4 of t2
+            if [x for x in z if abs(x[2] - t2) > 1e-4] != [x for x in restr if abs(x[2] - t2) > 1e-4]:
+                v.append(viol('C13', '%s_join on the person data: threshold refinement fails (%r -> %r)' % (which, t1, t2), {'entry': 'dataset', 'which': which}, len(restr), len(z)))
+            stats.hit('oracle.datasets.rows', len(X))
+        except Exception as e:    # noqa: BLE001
+            v.append(viol('C15', 'valid join on the person data raised %s: %s' % (type(e).__name__, str(e)[:80]), {'entry': 'dataset', 'which': which}))
+    return v
